@@ -333,6 +333,14 @@ class Evaluator:
         op = ast[1]
         if op in ("&&", "||", "==>", "<==>"):
             a = self.as_bool(self.eval(ast[2], env, cur, old), op)
+            # short circuit on a decided left operand (so that `isnil(p) || p.f == 0` is well defined)
+            ca = concrete_bool(a)
+            if op == "&&" and ca is False:
+                return TV(z3.BoolVal(False), BOOL)
+            if op == "||" and ca is True:
+                return TV(z3.BoolVal(True), BOOL)
+            if op == "==>" and ca is False:
+                return TV(z3.BoolVal(True), BOOL)
             b = self.as_bool(self.eval(ast[3], env, cur, old), op)
             if op == "&&":
                 return TV(z3.And(a, b), BOOL)
